@@ -173,4 +173,53 @@ func c08PipeExec(x *engine.Ctx, p *c08Pipe) {
 		}
 		x.Violation("C08/pipeline/extension-list-differs-from-reference-merge", fmt.Sprintf("certificate has %v\nreference merge gives %v\n%s", got, want, desc()))
 	}
+	c08Shared(x, prof, cfg, desc)
+}
+
+// c08Shared: the same profile serves three certificates in one run - one that inherits everything
+// (alias sorts before), the one under test, and one with the certificate list reversed (alias sorts
+// after). Each must get the reference merge of ITS list with the profile as written in the file:
+// a merge that writes into the shared profile shows up in the certificates processed later.
+func c08Shared(x *engine.Ctx, prof *refcfg.ProfileCfg, cfg *refcfg.CertCfg, desc func() string) {
+	first := &refcfg.CertCfg{Path: "a-first.yaml", Subject: "CN=first", KeyAlg: "P-224", Profile: "p"}
+	last := &refcfg.CertCfg{Path: "z-last.yaml", Subject: "CN=last", KeyAlg: "P-224", Profile: "p"}
+	for i := len(cfg.Exts) - 1; i >= 0; i-- {
+		last.Exts = append(last.Exts, cfg.Exts[i])
+	}
+	all := []*refcfg.CertCfg{first, cfg, last}
+	for _, c := range all {
+		eff := refcfg.EffectiveExts(c, prof)
+		for i := range eff {
+			if !eff[i].HasContent() {
+				return // some member cannot be generated: the single-certificate case above covers the refusal
+			}
+		}
+	}
+	d := &Dir{Certs: all, Profiles: []*refcfg.ProfileCfg{prof}}
+	g := Generate(d, nil, drive.Default)
+	x.Transition(1)
+	if g.Res.Panic != "" {
+		x.Violation("C08/panic/"+g.Res.PanicSite, g.Res.Panic)
+		return
+	}
+	if !g.Res.OK() {
+		x.Violation("C08/pipeline/shared-profile-run-failed", fmt.Sprintf("every effective list is fully defined but the run failed: %v\n%s", g.Res.Err(), desc()))
+		return
+	}
+	for _, c := range all {
+		eff := refcfg.EffectiveExts(c, prof)
+		a := ReadArtifact(g.W, c.Path)
+		if a.Cert == nil {
+			x.Violation("C08/pipeline/no-certificate", fmt.Sprintf("%s: %v", c.Path, a.CertErr))
+			continue
+		}
+		ok := len(eff) == len(a.Cert.Exts)
+		for i := 0; ok && i < len(eff); i++ {
+			ok = c08SameExt(&eff[i], a.Cert.Exts[i])
+		}
+		if !ok {
+			x.Violation("C08/pipeline/shared-profile/extension-list-differs-from-reference-merge", fmt.Sprintf("%s, one of three certificates of the same profile in one run, does not carry the reference merge of its own list\n%s", c.Path, desc()))
+		}
+	}
+	x.Outcome("shared profile compared")
 }
